@@ -374,7 +374,8 @@ def run(ctx):
         asgi = stack == 'asgi'
         case = {'stack': stack, 'plan': p, 'fault': fault}
         fs = final_state(R, p, asgi)
-        sse = asgi and p['sse'] is not None and not (p['raise'] and not p['raise_after_fill'])
+        # (after fixes 4582e3b / 53e3725 an emitter set before a HANDLED error is discarded with the rest of the body: the response is the error's)
+        sse = asgi and p['sse'] is not None and not p['raise'] and not fs['render_fails']
         sfail = p['stream']['fail'] if p['stream'] else None
         # what this run injects, and so what may leave the application: the class the stream's failing call raises, the class
         # close() raises, the class the server's send raises, a cancellation of the application's task by the server
